@@ -43,6 +43,7 @@ def h_table_sort1(k0: Optional[int], k1: Optional[int], k2: Optional[int], k3: O
     """
     pre: 0 <= n <= H.cfg('R', 3)
     pre: H.fix(n=n, rev=rev, na_last=na_last, byvec=byvec)
+    pre: all(x is None for x in [k0, k1, k2, k3][n:])
     post: _
     """
     H.reset()
@@ -74,6 +75,7 @@ def h_table_sort2(a0: Optional[int], a1: Optional[int], a2: Optional[int], b0: O
     pre: 0 <= n <= 3
     pre: (not scalar_rev) or ra == rb
     pre: H.fix(n=n, ra=ra, rb=rb, na_last=na_last, scalar_rev=scalar_rev)
+    pre: all(x is None for x in ([a0, a1, a2][n:] + [b0, b1, b2][n:]))
     post: _
     """
     H.reset()
@@ -144,6 +146,7 @@ def h_vector_sort(k0: Optional[int], k1: Optional[int], k2: Optional[int], k3: O
     """
     pre: 0 <= n <= H.cfg('R', 3)
     pre: H.fix(n=n, rev=rev, na_last=na_last)
+    pre: all(x is None for x in [k0, k1, k2, k3][n:])
     post: _
     """
     H.reset()
